@@ -203,8 +203,11 @@ func runServerSend(sc scenario) *outcome {
 			peer.WriteWindowUpdate(0, st.N)
 		case kStreamGrant:
 			w := rn.byIdx[st.S]
-			if w == nil || w.closedAt != 0 || w.rstIn || w.rstOut || w.endStream > 0 || rn.led.StreamCredit(w.id)+int64(st.N) > 1<<31-1 {
+			if w == nil || rn.led.StreamCredit(w.id)+int64(st.N) > 1<<31-1 {
 				continue
+			}
+			if w.closedAt != 0 || w.rstIn || w.rstOut || w.endStream > 0 {
+				label = "late-stream+"
 			}
 			peer.WriteWindowUpdate(w.id, st.N)
 		case kSettings:
